@@ -399,7 +399,9 @@ Fixpoint process (p : planner) (c : pctx) (st : pst) {struct p} : res (select * 
     end
   | PDropP params main =>
     do (req, st1, main') <- process main c st;
-    Some (set_cols (patch_col (s_cols req) "labels" (fun l => map_drop_filter l params)) req, st1, PDropP params main')
+    (* the line is re-fingerprinted like a parsed line (since the repair of drop-keeps-fingerprint) *)
+    let req1 := set_cols (patch_col (s_cols req) "labels" (fun l => map_drop_filter l params)) req in
+    Some (set_cols (patch_col (s_cols req1) "fingerprint" (fun _ => fp_of_labels)) req1, st1, PDropP params main')
   | PLabelsJoin main fp ts with_lc =>
     do (tsreq, st1, ts', fp') <- with_connector process ts fp c st
            (fun q w => and_prewhere [In (Id "time_series.fingerprint") [WRef (fst w) (snd w)]] q);
